@@ -30,3 +30,153 @@ pub extern "C" fn mcount() {
         }
     });
 }
+
+// ------------------------------------------------------------------------
+// ThreadSanitizer interface, re-purposed: the instrumented crates are compiled
+// with `-Zsanitizer=thread -Zexternal-clangrt`, i.e. with TSan's compile-time
+// instrumentation but WITHOUT its runtime. The functions the instrumentation
+// calls are provided here: plain memory accesses are no-ops (safe Rust cannot
+// race on them), function entries and every ATOMIC operation are scheduling
+// points — the hook is called first, then the operation is carried out for
+// real. In safe Rust every unsynchronised shared access is an atomic, so this
+// puts a seam exactly where lock-free shared state can be observed half-updated.
+
+#[inline(always)]
+fn seam() {
+    mcount();
+}
+
+macro_rules! noop1 {
+    ($($name:ident),*) => { $( #[no_mangle] pub extern "C" fn $name(_a: *mut u8) {} )* };
+}
+noop1!(
+    __tsan_read1, __tsan_read2, __tsan_read4, __tsan_read8, __tsan_read16,
+    __tsan_write1, __tsan_write2, __tsan_write4, __tsan_write8, __tsan_write16,
+    __tsan_unaligned_read1, __tsan_unaligned_read2, __tsan_unaligned_read4, __tsan_unaligned_read8, __tsan_unaligned_read16,
+    __tsan_unaligned_write1, __tsan_unaligned_write2, __tsan_unaligned_write4, __tsan_unaligned_write8, __tsan_unaligned_write16,
+    __tsan_volatile_read1, __tsan_volatile_read2, __tsan_volatile_read4, __tsan_volatile_read8, __tsan_volatile_read16,
+    __tsan_volatile_write1, __tsan_volatile_write2, __tsan_volatile_write4, __tsan_volatile_write8, __tsan_volatile_write16,
+    __tsan_unaligned_volatile_read1, __tsan_unaligned_volatile_read2, __tsan_unaligned_volatile_read4, __tsan_unaligned_volatile_read8, __tsan_unaligned_volatile_read16,
+    __tsan_unaligned_volatile_write1, __tsan_unaligned_volatile_write2, __tsan_unaligned_volatile_write4, __tsan_unaligned_volatile_write8, __tsan_unaligned_volatile_write16,
+    __tsan_read_write1, __tsan_read_write2, __tsan_read_write4, __tsan_read_write8, __tsan_read_write16,
+    __tsan_unaligned_read_write1, __tsan_unaligned_read_write2, __tsan_unaligned_read_write4, __tsan_unaligned_read_write8, __tsan_unaligned_read_write16
+);
+
+#[no_mangle]
+pub extern "C" fn __tsan_init() {}
+#[no_mangle]
+pub extern "C" fn __tsan_func_entry(_pc: *mut u8) {
+    seam();
+}
+#[no_mangle]
+pub extern "C" fn __tsan_func_exit() {}
+#[no_mangle]
+pub extern "C" fn __tsan_vptr_update(_a: *mut *mut u8, _v: *mut u8) {}
+#[no_mangle]
+pub extern "C" fn __tsan_vptr_read(_a: *mut *mut u8) {}
+#[no_mangle]
+pub extern "C" fn __tsan_read_range(_a: *mut u8, _n: usize) {}
+#[no_mangle]
+pub extern "C" fn __tsan_write_range(_a: *mut u8, _n: usize) {}
+#[no_mangle]
+pub unsafe extern "C" fn __tsan_memcpy(d: *mut u8, s: *const u8, n: usize) -> *mut u8 {
+    unsafe { std::ptr::copy_nonoverlapping(s, d, n) };
+    d
+}
+#[no_mangle]
+pub unsafe extern "C" fn __tsan_memmove(d: *mut u8, s: *const u8, n: usize) -> *mut u8 {
+    unsafe { std::ptr::copy(s, d, n) };
+    d
+}
+#[no_mangle]
+pub unsafe extern "C" fn __tsan_memset(d: *mut u8, c: i32, n: usize) -> *mut u8 {
+    unsafe { std::ptr::write_bytes(d, c as u8, n) };
+    d
+}
+#[no_mangle]
+pub extern "C" fn __tsan_atomic_thread_fence(_mo: i32) {
+    seam();
+    std::sync::atomic::fence(Ordering::SeqCst);
+}
+#[no_mangle]
+pub extern "C" fn __tsan_atomic_signal_fence(_mo: i32) {
+    std::sync::atomic::compiler_fence(Ordering::SeqCst);
+}
+
+macro_rules! tsan_atomics {
+    ($t:ty, $at:ty, $load:ident, $store:ident, $xchg:ident, $add:ident, $sub:ident, $and:ident, $or:ident, $xor:ident, $nand:ident, $casv:ident, $cass:ident, $casw:ident) => {
+        #[no_mangle]
+        pub unsafe extern "C" fn $load(a: *mut $t, _mo: i32) -> $t {
+            seam();
+            unsafe { <$at>::from_ptr(a) }.load(Ordering::SeqCst)
+        }
+        #[no_mangle]
+        pub unsafe extern "C" fn $store(a: *mut $t, v: $t, _mo: i32) {
+            seam();
+            unsafe { <$at>::from_ptr(a) }.store(v, Ordering::SeqCst)
+        }
+        #[no_mangle]
+        pub unsafe extern "C" fn $xchg(a: *mut $t, v: $t, _mo: i32) -> $t {
+            seam();
+            unsafe { <$at>::from_ptr(a) }.swap(v, Ordering::SeqCst)
+        }
+        #[no_mangle]
+        pub unsafe extern "C" fn $add(a: *mut $t, v: $t, _mo: i32) -> $t {
+            seam();
+            unsafe { <$at>::from_ptr(a) }.fetch_add(v, Ordering::SeqCst)
+        }
+        #[no_mangle]
+        pub unsafe extern "C" fn $sub(a: *mut $t, v: $t, _mo: i32) -> $t {
+            seam();
+            unsafe { <$at>::from_ptr(a) }.fetch_sub(v, Ordering::SeqCst)
+        }
+        #[no_mangle]
+        pub unsafe extern "C" fn $and(a: *mut $t, v: $t, _mo: i32) -> $t {
+            seam();
+            unsafe { <$at>::from_ptr(a) }.fetch_and(v, Ordering::SeqCst)
+        }
+        #[no_mangle]
+        pub unsafe extern "C" fn $or(a: *mut $t, v: $t, _mo: i32) -> $t {
+            seam();
+            unsafe { <$at>::from_ptr(a) }.fetch_or(v, Ordering::SeqCst)
+        }
+        #[no_mangle]
+        pub unsafe extern "C" fn $xor(a: *mut $t, v: $t, _mo: i32) -> $t {
+            seam();
+            unsafe { <$at>::from_ptr(a) }.fetch_xor(v, Ordering::SeqCst)
+        }
+        #[no_mangle]
+        pub unsafe extern "C" fn $nand(a: *mut $t, v: $t, _mo: i32) -> $t {
+            seam();
+            unsafe { <$at>::from_ptr(a) }.fetch_nand(v, Ordering::SeqCst)
+        }
+        #[no_mangle]
+        pub unsafe extern "C" fn $casv(a: *mut $t, c: $t, v: $t, _mo: i32, _fmo: i32) -> $t {
+            seam();
+            match unsafe { <$at>::from_ptr(a) }.compare_exchange(c, v, Ordering::SeqCst, Ordering::SeqCst) {
+                Ok(o) | Err(o) => o,
+            }
+        }
+        #[no_mangle]
+        pub unsafe extern "C" fn $cass(a: *mut $t, c: *mut $t, v: $t, _mo: i32, _fmo: i32) -> i32 {
+            seam();
+            let expected = unsafe { *c };
+            match unsafe { <$at>::from_ptr(a) }.compare_exchange(expected, v, Ordering::SeqCst, Ordering::SeqCst) {
+                Ok(_) => 1,
+                Err(o) => {
+                    unsafe { *c = o };
+                    0
+                }
+            }
+        }
+        #[no_mangle]
+        pub unsafe extern "C" fn $casw(a: *mut $t, c: *mut $t, v: $t, mo: i32, fmo: i32) -> i32 {
+            unsafe { $cass(a, c, v, mo, fmo) }
+        }
+    };
+}
+use std::sync::atomic::{AtomicU16, AtomicU32, AtomicU64, AtomicU8};
+tsan_atomics!(u8, AtomicU8, __tsan_atomic8_load, __tsan_atomic8_store, __tsan_atomic8_exchange, __tsan_atomic8_fetch_add, __tsan_atomic8_fetch_sub, __tsan_atomic8_fetch_and, __tsan_atomic8_fetch_or, __tsan_atomic8_fetch_xor, __tsan_atomic8_fetch_nand, __tsan_atomic8_compare_exchange_val, __tsan_atomic8_compare_exchange_strong, __tsan_atomic8_compare_exchange_weak);
+tsan_atomics!(u16, AtomicU16, __tsan_atomic16_load, __tsan_atomic16_store, __tsan_atomic16_exchange, __tsan_atomic16_fetch_add, __tsan_atomic16_fetch_sub, __tsan_atomic16_fetch_and, __tsan_atomic16_fetch_or, __tsan_atomic16_fetch_xor, __tsan_atomic16_fetch_nand, __tsan_atomic16_compare_exchange_val, __tsan_atomic16_compare_exchange_strong, __tsan_atomic16_compare_exchange_weak);
+tsan_atomics!(u32, AtomicU32, __tsan_atomic32_load, __tsan_atomic32_store, __tsan_atomic32_exchange, __tsan_atomic32_fetch_add, __tsan_atomic32_fetch_sub, __tsan_atomic32_fetch_and, __tsan_atomic32_fetch_or, __tsan_atomic32_fetch_xor, __tsan_atomic32_fetch_nand, __tsan_atomic32_compare_exchange_val, __tsan_atomic32_compare_exchange_strong, __tsan_atomic32_compare_exchange_weak);
+tsan_atomics!(u64, AtomicU64, __tsan_atomic64_load, __tsan_atomic64_store, __tsan_atomic64_exchange, __tsan_atomic64_fetch_add, __tsan_atomic64_fetch_sub, __tsan_atomic64_fetch_and, __tsan_atomic64_fetch_or, __tsan_atomic64_fetch_xor, __tsan_atomic64_fetch_nand, __tsan_atomic64_compare_exchange_val, __tsan_atomic64_compare_exchange_strong, __tsan_atomic64_compare_exchange_weak);
